@@ -15,7 +15,7 @@ from t10 import targets as T
 
 ID = "C12"
 LEVEL = "exploration"
-COUNTS = {"quick": 5000, "thorough": 400000}
+COUNTS = {"quick": 3000, "thorough": 300000}
 RULE = ("seeded histories of 3-40 block commands (WRITE/READ 10/12/16, WRITE SAME 10/16 incl. NDOB/UNMAP/ANCHOR, SYNCHRONIZE CACHE, "
         "READ CAPACITY, INQUIRY, some out of range) with boundary-biased LBAs over capacities up to 2**64-1, block sizes "
         "{1,3,512,520,4096}, unique payload per write, run on an SG_IO device and an iSCSI device; fault-free and status-fault "
@@ -26,7 +26,7 @@ COMPONENTS = {"real": ["SCSI facade", "Read/Write/WriteSame/SynchronizeCache/Rea
               "simulated_peers": ["t10.targets.BlockLU (sparse disk, decodes CDBs from the standard)"]}
 ASSUMPTIONS = [
     "the BlockLU ignores UNMAP (allowed) and rejects ANCHOR without UNMAP, NUMBER OF LOGICAL BLOCKS = 0 beyond 65536 blocks, and out-of-range LBAs with the SBC sense codes",
-    "transfer lengths above 2**16 blocks are not explored (the library allocates blocksize*tl bytes)",
+    "transfer lengths above 2**17 blocks are not explored (the library allocates blocksize*tl bytes)",
     "result names read: returned_lba, block_length, t10_vendor_identification, product_identification, product_revision_level, peripheral_device_type",
 ]
 REQUIRED_PROBES = ["readback_written", "lba_above_32bit", "ndob", "out_of_range_cc", "status"]
@@ -61,7 +61,7 @@ def gen_op(rng, cfg, hot, counter):
     bits = 64 if width == 16 else 32
     big = bs == 1
     if r < 0.3:
-        tl = rng.choice([0, 1, 1, 2, 3, 7] + ([255, 256, 4097, 65535, 65536] if big and width != 10 else []) + ([255, 256, 65535] if big else []))
+        tl = rng.choice([0, 1, 1, 2, 3, 7] + ([255, 256, 4097, 65535, 65536, 65537, 1 << 17] if big and width != 10 else []) + ([255, 256, 65535] if big else []))
         if width == 10:
             tl = min(tl, 65535)
         lba = _lba(rng, bits, nb, tl, hot)
@@ -81,7 +81,7 @@ def gen_op(rng, cfg, hot, counter):
         if width == 16 and rng.random() < 0.35:
             op["ndob"] = 1
     elif r < 0.8:
-        tl = rng.choice([0, 1, 1, 2, 3, 8] + ([255, 256, 4097, 65535] if big else []))
+        tl = rng.choice([0, 1, 1, 2, 3, 8] + ([255, 256, 4097, 65535] if big else []) + ([65536, 65537, 100000, 1 << 17] if big and width != 10 else []))
         if width == 10:
             tl = min(tl, 65535)
         lba = _lba(rng, bits, nb, tl, hot)
